@@ -266,6 +266,12 @@ def run(ctx, spec):
                     q[key] = max(1, p[key] + rng.choice([-2, -1, 1, 2]))
                     if not names_risky(q):
                         psets.append((f"random{i}~{key}", q))
+    # several OSs, tight firewalls, few processes: the corner where vulnerability repair and firewall
+    # selection interact (OS-specific exploits/escalations, one admitted service per rule)
+    for j, (nh, nsrv, nos, npr, restr) in enumerate([(8, 4, 3, 2, 1), (10, 3, 3, 3, 1), (6, 5, 2, 2, 2)]):
+        psets.append((f"stress{j}", dict(num_hosts=nh, num_services=nsrv, num_os=nos, num_processes=npr,
+                                         restrictiveness=restr, exploit_probs=1.0, privesc_probs=1.0,
+                                         r_sensitive=100, r_user=100, step_limit=500)))
     seeds = list(range(sizes["seeds"]))
     if tier == "quick":
         psets = [x for x in psets if x[0] not in ("pocp-1-gen", "pocp-2-gen", "huge-gen")] + \
